@@ -42,6 +42,7 @@ REQUIRED_MONITORS = ['contract:PLSSDesc.parse', 'contract:Tract.parse',
                      'relation:config-applied',
                      'relation:parse_tracts-after-parse',
                      'relation:parse_tracts-leaves-description',
+                     'relation:layout-assigned-later',
                      'tract-relation:replay']
 
 TEXTS = [
@@ -378,6 +379,27 @@ def run_plss(case, ctx, rep, pytrs):
                 f"{first_diff(a, b, DNAMES[:1] + DNAMES[2:])}",
                 dedup='replay')
             return
+        # A layout configured after creation is in force for the next parse
+        # exactly as if the object had been created with it.
+        if len(txt) % 3 == 0:
+            ctx.hit('relation:layout-assigned-later')
+            L = ('TRS_desc', 'desc_STR', 'S_desc_TR', 'TR_desc_S')[len(txt) % 4]
+            late = pytrs.PLSSDesc(txt)
+            late.config = L
+            got_nc = [(t.trs, t.desc) for t in late.parse(commit=False)]
+            late.parse()
+            born = pytrs.PLSSDesc(txt, config=L)
+            want = [(t.trs, t.desc) for t in born.tracts]
+            if got_nc != want or dcmp(late)[:7] != dcmp(born)[:7]:
+                ctx.violation(
+                    'history-dependent-state', case,
+                    f"PLSSDesc(text); .config = {L!r}; parse() gives "
+                    f"{[(t.trs, short(t.desc, 25)) for t in late.tracts][:4]} "
+                    f"(what-if: {got_nc[:3]}); created with config {L!r}: "
+                    f"{[(t.trs, short(t.desc, 25)) for t in born.tracts][:4]}"
+                    f" -- {first_diff(dcmp(late)[:7], dcmp(born)[:7], (DNAMES[:1] + DNAMES[2:])[:7])}",
+                    dedup='layout-later')
+                return
         # Every entry point that re-parses the tracts with unchanged
         # settings reproduces the same results.
         ctx.hit('relation:entry-points')
